@@ -87,11 +87,22 @@ def _kind(kind):
             grp.data_arrays.append(da)
             return da
         return f, mk, (lambda: f.blocks["blk"].groups["grp"].data_arrays)
+    if kind == "source_links":
+        # a list of links to sources that live at DEPTH 2 of the block's source tree
+        da = blk.create_data_array("da", "t", data=[1.0])
+        top = blk.create_source("top", "t")
+        blk.create_source("b", "t")                      # the same names exist at the top level, unlinked
+
+        def mk(n):
+            s2 = top.create_source(n, "t")
+            da.sources.append(s2)
+            return s2
+        return f, mk, (lambda: f.blocks["blk"].data_arrays["da"].sources)
     raise KeyError(kind)
 
 
 KINDS = ["blocks", "sections", "subsections", "properties", "data_arrays", "data_frames", "tags", "multi_tags",
-         "groups", "sources", "subsources", "group_links"]
+         "groups", "sources", "subsources", "group_links", "source_links"]
 
 
 def _agree(cont, want):
@@ -212,8 +223,8 @@ def _ob_create_lookup(n1: int, n2: int, which: int, mid: bool) -> bool:
         if not _agree(c, rest):
             return False
     # the name is free again and gets a new id, appended at the end
-    if kind == "group_links":
-        e = made[which]
+    if kind in ("group_links", "source_links"):
+        e = made[which]                  # unlinking does not delete the entity: it is linked again
         c.append(e)
     else:
         e = create(victim[0])
